@@ -1,6 +1,8 @@
 package props
 
 import (
+	"fmt"
+
 	eval "github.com/onheap/eval"
 
 	"verifmc/drive"
@@ -39,9 +41,9 @@ func tryEvalCheck(r *rep.Run, kleene bool) {
 		r.SetBudget(1800e9)
 	}
 	if kleene {
-		r.Rule = "every CORE/RICH program up to the node bound x 16 optimisation subsets x {events off, ReportEvent} x every split of its variables into available/unavailable x every value assignment; restricted to pairs in which no operator application over known values fails; oracle: strong-Kleene three-valued reference R2 — R2 definite => TryEval returns exactly that value with nil error; R2 unknown => TryEval returns DNE or a value that Eval confirms on every completion, never an error; TryEvalBool mirrors (ErrDNE iff DNE). non-trivial = (program,split,assignment) triples with at least one unavailable variable and a definite R2 answer"
+		r.Rule = "every CORE/RICH program up to the node bound (+ the one-node programs only infix notation can write) x 16 optimisation subsets x {events off, ReportEvent} (+ variables resolved by name, + registered variables in a config that allows undefined ones, there also through the context NewCtxFromVars builds from the available values) x every split of its variables into available/unavailable x every value assignment; restricted to pairs in which no operator application over known values fails; oracle: strong-Kleene three-valued reference R2 — R2 definite => TryEval returns exactly that value with nil error; R2 unknown => TryEval returns DNE or a value that Eval confirms on every completion, never an error; TryEvalBool mirrors (ErrDNE iff DNE). non-trivial = (program,split,assignment) triples with at least one unavailable variable and a definite R2 answer"
 	} else {
-		r.Rule = "every CORE/RICH program up to the node bound x 16 optimisation subsets x {events off, ReportEvent} x every split of its variables into available/unavailable (2^k) x every value assignment to both parts (thorough: plus one ill-typed value per unavailable variable); oracle: a definite TryEval answer equals real Eval on EVERY completion on which Eval succeeds; with everything available TryEval == Eval (value and error-ness); a definite answer on a split stays the same on every larger split; no Get on an unavailable variable. non-trivial = triples with an unavailable variable and a definite TryEval answer"
+		r.Rule = "every CORE/RICH program up to the node bound (+ the one-node programs only infix notation can write) x 16 optimisation subsets x {events off, ReportEvent} (+ variables resolved by name, + registered variables in a config that allows undefined ones, there also through the context NewCtxFromVars builds from the available values) x every split of its variables into available/unavailable (2^k) x every value assignment to both parts (thorough: plus one ill-typed value per unavailable variable); oracle: a definite TryEval answer equals real Eval on EVERY completion on which Eval succeeds; with everything available TryEval == Eval (value and error-ness); a definite answer on a split stays the same on every larger split; no Get on an unavailable variable. non-trivial = triples with an unavailable variable and a definite TryEval answer"
 	}
 	r.Assume = []string{"small-scope hypothesis on tree size", "the fetcher truthfully reports availability (Cached) and values"}
 	r.Cov["bounds"] = map[string]int{"core_max_nodes": coreMax, "rich_max_nodes": richMax}
@@ -53,9 +55,22 @@ func tryEvalCheck(r *rep.Run, kleene bool) {
 	}
 	progs = withAliases(progs, aliasMax)
 	progs = withMerged(progs, 5)
+	progs = append(progs, loneLeafPrograms()...)
 	r.Cov["programs_incl_alias_spellings"] = len(progs)
 	hs := harnesses(r.Workers)
 	opts := optMatrix(0, 1)
+	// variables resolved by name (all share the undefined key), and registered
+	// variables in a config that also allows undefined ones
+	for _, b := range []int{0, 4, 15} {
+		o := drive.FromBits(b)
+		o.Undef = 1
+		opts = append(opts, o)
+	}
+	for _, b := range []int{0, 15} {
+		o := drive.FromBits(b)
+		o.Undef = 3
+		opts = append(opts, o)
+	}
 
 	done := r.ParallelFor(len(progs), func(w, i int) {
 		p := progs[i]
@@ -190,6 +205,24 @@ func tryEvalCheck(r *rep.Run, kleene bool) {
 					tr += int64(len(h.Trace)) + 1
 					d := func(extra map[string]interface{}) map[string]interface{} {
 						return caseDesc(p.Src, c.o, p.Vars, vals, avail, extra)
+					}
+					// the context the library builds from exactly the available
+					// values (NewCtxFromVars chooses the fetcher from the config)
+					if c.o.Undef == 3 && typedOnly[idx] && got.Panic == nil {
+						supplied := map[string]interface{}{}
+						for v := 0; v < k; v++ {
+							if avail[v] {
+								supplied[p.Vars[v].Name] = vals[v]
+							}
+						}
+						var lv eval.Value
+						var lerr error
+						pn, site := drive.Fence(func() { lv, lerr = c.e.TryEval(eval.NewCtxFromVars(c.cfg, supplied)) })
+						ex++
+						lib := drive.Out{Val: lv, Err: lerr, Panic: pn, Site: site}
+						if !drive.SameOutcome(lib, got) || (got.Err == nil && isDNE(got.Val) != isDNE(lib.Val)) {
+							r.Violate("library-context", p.Src+c.o.String(), sprintf("TryEval with the context NewCtxFromVars builds from the available values gives %s, with a fetcher reporting the same availability it gives %s", lib, got), d(map[string]interface{}{"supplied": fmt.Sprint(supplied)}))
+						}
 					}
 					if got.Panic != nil {
 						r.Violate("panic", p.Src+c.o.String(), sprintf("TryEval panics: %v at %s", got.Panic, got.Site), d(nil))
